@@ -162,6 +162,9 @@ func decodeDisk(root string, keys [][]byte, n int) (img diskImage) {
 			}
 			img.Tables = append(img.Tables, t)
 		default:
+			if e.Name() == "LOCK" && !e.IsDir() {
+				continue // a foreign file the application keeps in the directory (session kind "foreignfile"): no part of the disk model
+			}
 			img.Unknown = append(img.Unknown, e.Name())
 		}
 	}
